@@ -2,7 +2,7 @@
    AGV events fire exactly when due by the clock invariant of C12). *)
 From Coq Require Import List ZArith Bool.
 From JSL Require Import Base.Res Base.ListX SM.Types SM.Util SM.Handler SM.Step SM.Inv
-  SMP.Post SMP.PostApply SMP.Offers SMP.Clock SMP.ClockMain SMP.WF SMP.Reflect SMP.Feasible SMP.Unique SM.Middleware SMP.StepInv SMP.LiftSide SMP.OutputDone SMP.LiftProv SMP.ProvBatch SMP.Deliver SM.ExampleShift SMP.Durations SMP.Travel SM.Events SMP.EventsRun.
+  SMP.Post SMP.PostApply SMP.Offers SMP.Clock SMP.ClockMain SMP.WF SMP.Reflect SMP.Feasible SMP.Unique SM.Middleware SMP.StepInv SMP.LiftSide SMP.OutputDone SMP.LiftProv SMP.ProvBatch SMP.Deliver SM.ExampleShift SMP.Durations SMP.Travel SM.Events SMP.EventsRun SMP.Transit.
 Import ListNotations.
 
 (* dispatch: the AGV reaches the pickup point exactly travel(where it stands -> where the job lies)
@@ -261,3 +261,20 @@ Theorem C07_delivery_events_hold_along_every_run :
     reach sigma i fuel x0 joker0 ta r m -> mw_step sigma i fuel r m a = MOk r' m' lg -> chain_events i (r_x r) lg.
 Proof. intros sigma i fuel x0 joker0 ta r m a r' m' lg Hnn. apply run_events_ok; auto. Qed.
 Print Assumptions C07_delivery_events_hold_along_every_run.
+
+(* over whole runs of every instance, the pickup: every -> TRANSIT of every micro-log either finds its job off the release position of an
+   ordered buffer and leaves the AGV waiting with every store untouched, or takes the AGV's OWN claim - a job that is not being
+   processed (never "before the operation it is undergoing has completed") and lies in a post- or standalone buffer - out of that
+   buffer into the empty AGV, for exactly travel(where the job lies -> the machine of its next operation, or the first output buffer
+   when nothing is left), the value drawn now, and that destination is the one the route recorded at dispatch (ev_transit; SMP/Transit.v:
+   the batch invariant gives "own claim, outside every machine", RTE/OD/RT0 give the agreement of the recorded and the recomputed
+   destination) *)
+Theorem C07_pickup_events_hold_along_every_run :
+  forall (sigma : oracle) (i : inst) (fuel : nat) (x0 : state) (joker0 : Z) (ta : bool) (r : result) (m : mw)
+         (a : Z) (r' : result) (m' : mw) (lg : mlog),
+    inst_nonneg_b i = true ->
+    clock_b x0 = true -> wfs_b i x0 = true -> fresh2_b i x0 = true -> nodep_b x0 = true -> pre_ok_b x0 = true ->
+    reach sigma i fuel x0 joker0 ta r m -> mw_step sigma i fuel r m a = MOk r' m' lg -> chain_transit i (r_x r) lg.
+Proof. intros sigma i fuel x0 joker0 ta r m a r' m' lg Hnn. apply run_transit_ok; auto. Qed.
+Print Assumptions C07_pickup_events_hold_along_every_run.
+
